@@ -270,7 +270,14 @@ def determinism_sample(prop, tier, seed, scale, jobs, results, n):
     if not idxs:
         return {"jobs": 0, "mismatches": 0}
     step = max(1, len(idxs) // n)
-    pick = idxs[::step][:n]
+    cand = idxs[::step][:n]
+    # bound the cost: the fresh interpreter re-executes the picked jobs sequentially
+    pick, cost = [], 0
+    for i in cand:
+        if len(pick) >= 4 and cost + results[i]["evals"] > 4000:
+            continue
+        pick.append(i)
+        cost += results[i]["evals"]
     env = dict(os.environ)
     env["PYTHONHASHSEED"] = str(1 + (seed % 1000))
     env["VERIF_SCALE"] = repr(scale)
@@ -282,7 +289,7 @@ def determinism_sample(prop, tier, seed, scale, jobs, results, n):
     except Exception as e:
         return {"jobs": len(pick), "mismatches": len(pick), "error": "%s: %s" % (type(e).__name__, e)}
     mism = [i for i in pick if got.get(str(i)) != results[i]["digest"]]
-    return {"jobs": len(pick), "mismatches": len(mism), "mismatch_jobs": mism[:5],
+    return {"jobs": len(pick), "runs": cost, "mismatches": len(mism), "mismatch_jobs": mism[:5],
             "fresh_interpreter_hashseed": env["PYTHONHASHSEED"]}
 
 
